@@ -84,6 +84,8 @@ class ResultInterp(Interp):
         return Unknown("subscript")
 
     def get_attr(self, base, attr, node):
+        if isinstance(base, _ReV):
+            return _ReM(base, attr)
         # enum protocol of Metric members: .name/.value are provided by the objects themselves
         if isinstance(base, Obj) and base.cls.name == "Metric" and attr == "value" and base.cls.lookup("value") is None:
             return base.attrs["value"]
@@ -92,6 +94,10 @@ class ResultInterp(Interp):
         return super().get_attr(base, attr, node)
 
     def apply(self, fv, args, kwargs, node):
+        if isinstance(fv, _ReM):
+            if fv.name in ("match", "fullmatch", "search") and args and isinstance(args[0], str):
+                return getattr(fv.rv.rx, fv.name)(args[0]) is not None
+            return Unknown("regex method")
         if isinstance(fv, _StrMethod):
             def plain(a):
                 return isinstance(a, (str, int)) or (isinstance(a, (list, tuple)) and all(isinstance(x, str) for x in a))
@@ -118,12 +124,26 @@ class ResultInterp(Interp):
             if name in ("numpy.asarray", "numpy.array", "numpy.float64", "float") and a:
                 return a[0]
             return Tagged(name, a, {k: v for k, v in kwargs.items() if k != "dtype"})
+        if name == "re.compile" and args and isinstance(args[0], str):
+            import re
+
+            try:
+                return _ReV(re.compile(args[0], *[a for a in args[1:] if isinstance(a, int)]))
+            except re.error:
+                return Unknown("re.compile")
+        if name in ("re.match", "re.fullmatch", "re.search") and len(args) >= 2 and isinstance(args[0], str) and isinstance(args[1], str):
+            import re
+
+            return getattr(re, name.split(".")[1])(args[0], args[1]) is not None
         if name in ("numpy.all", "numpy.any") and args and isinstance(args[0], (list, tuple)) and all(isinstance(x, bool) for x in args[0]):
             return all(args[0]) if name.endswith("all") else any(args[0])
         r.ext_calls.append((name, node))
         return Unknown(f"{name}(...)")
 
     def compare_hook(self, op, l, r, node):
+        if isinstance(op, (ast.Eq, ast.NotEq)) and isinstance(l, Obj) and isinstance(r, Obj) and l.cls.name == "Metric" and r.cls.name == "Metric":
+            same = l is r or l.attrs.get("_name_") == r.attrs.get("_name_")
+            return same if isinstance(op, ast.Eq) else not same
         if isinstance(l, Tagged) and isinstance(r, Tagged) and isinstance(op, (ast.Eq, ast.NotEq)) and l.name == r.name == "hash":
             return (l == r) if isinstance(op, ast.Eq) else not (l == r)
         return Unknown(f"cmp {norm(node) if isinstance(node, ast.AST) else ''}")
@@ -211,6 +231,17 @@ def reducer_verdict(kind: str, term, vals: tuple):
     if _is(term, *others):
         return False
     return None
+
+
+class _ReV:
+    def __init__(self, rx):
+        self.rx = rx
+
+
+class _ReM:
+    def __init__(self, rv, name):
+        self.rv = rv
+        self.name = name
 
 
 class _StrMethod:
